@@ -173,11 +173,6 @@ theorem canBegin_step {s s' : St} {b : Bool} (h : Reach s) (t : Tid) (hu : (s.u 
   | uStopSet hu' => exact userCase rfl
   | uStopBump hu' => exact userCase rfl
 
-/-- an execution fragment: consecutive states, each a transition of the system -/
-inductive Path : St → List St → Prop where
-  | nil (s) : Path s []
-  | cons {s s' b rest} : Tr s b s' → Path s' rest → Path s (s' :: rest)
-
 def countBegins : St → List St → Nat
   | _, [] => 0
   | s, s' :: rest => (if begins s s' then 1 else 0) + countBegins s' rest
